@@ -61,7 +61,7 @@ cleanup = _cleanup
 
 
 class Session:
-    def __init__(self, sources: dict[str, str] | None = None, cache: bool = True, transpiler_env: dict | None = None, extra_defs: dict | None = None, template_override: bool = False, view_env: dict | None = None) -> None:
+    def __init__(self, sources: dict[str, str] | None = None, cache: bool = True, transpiler_env: dict | None = None, extra_defs: dict | None = None, template_override: bool = False, view_env: dict | None = None, root: str | None = None) -> None:
         from rogw.tranp.app.app import App
         from rogw.tranp.cache.cache import CacheSetting
         from rogw.tranp.data.meta.types import ModuleMetaFactory
@@ -79,7 +79,11 @@ class Session:
         from rogw.tranp.lang.locator import Invoker
         from rogw.tranp.providers.syntax.ast import source_provider as org_source_provider
 
-        ensure_workdir()
+        if root:
+            # a second project directory served by the same process (own data link, own .cache)
+            os.chdir(root)
+        else:
+            ensure_workdir()
         self.sources: dict[str, str] = dict(sources or {})
         session = self
 
